@@ -319,55 +319,70 @@ func TestVerif_C09_Handlers(t *testing.T) {
 			}
 			return out
 		}
-		for _, order := range []string{"old-layout -> new-layout", "new-layout -> old-layout"} {
-			first, second := e2, e2x
-			if order == "new-layout -> old-layout" {
-				first, second = e2x, e2
-			}
-			// the idle server of the second configuration (a cache of its own)
-			idleCache := vkNewCache()
-			i1, err1 := vkLoadEpoch(e1.ConfigPath, idleCache)
-			i2, err2 := vkLoadEpoch(second.ConfigPath, idleCache)
-			if err1 != nil || err2 != nil {
-				R.Internal("load: %v %v", err1, err2)
-				return
-			}
-			want := answers(vkNewMulti(2, i1, i2))
-			// the running server: serves the first configuration, answers requests, then the epoch is reloaded
-			runCache := vkNewCache()
-			r1, err1 := vkLoadEpoch(e1.ConfigPath, runCache)
-			r2, err2 := vkLoadEpoch(first.ConfigPath, runCache)
-			r2b, err3 := vkLoadEpoch(second.ConfigPath, runCache)
-			if err1 != nil || err2 != nil || err3 != nil {
-				R.Internal("load: %v %v %v", err1, err2, err3)
-				return
-			}
-			m := vkNewMulti(2, r1, r2)
-			answers(m) // warm: the shared cache now holds what was looked up in the first layout
-			if err := m.ReplaceOrAddEpoch(2, r2b); err != nil {
-				R.Internal("ReplaceOrAddEpoch: %v", err)
-				return
-			}
-			got := answers(m)
-			R.Case(true, "")
-			wrong := 0
-			firstWrong := ""
-			for i := range want {
-				if got[i] != want[i] {
-					wrong++
-					if firstWrong == "" {
-						firstWrong = fmt.Sprintf("%s answered %.200s (idle server: %.120s)", bodies[i], got[i], want[i])
+		for _, how := range []string{"ReplaceOrAddEpoch", "RemoveEpochByConfigFilepath+AddEpoch", "RemoveEpoch+AddEpoch"} {
+			for _, order := range []string{"old-layout -> new-layout", "new-layout -> old-layout"} {
+				first, second := e2, e2x
+				if order == "new-layout -> old-layout" {
+					first, second = e2x, e2
+				}
+				// the idle server of the second configuration (a cache of its own)
+				idleCache := vkNewCache()
+				i1, err1 := vkLoadEpoch(e1.ConfigPath, idleCache)
+				i2, err2 := vkLoadEpoch(second.ConfigPath, idleCache)
+				if err1 != nil || err2 != nil {
+					R.Internal("load: %v %v", err1, err2)
+					return
+				}
+				want := answers(vkNewMulti(2, i1, i2))
+				// the running server: serves the first configuration, answers requests, then the epoch is reloaded
+				runCache := vkNewCache()
+				r1, err1 := vkLoadEpoch(e1.ConfigPath, runCache)
+				r2, err2 := vkLoadEpoch(first.ConfigPath, runCache)
+				r2b, err3 := vkLoadEpoch(second.ConfigPath, runCache)
+				if err1 != nil || err2 != nil || err3 != nil {
+					R.Internal("load: %v %v %v", err1, err2, err3)
+					return
+				}
+				m := vkNewMulti(2, r1, r2)
+				answers(m) // warm: the shared cache now holds what was looked up in the first layout
+				var rerr error
+				switch how {
+				case "ReplaceOrAddEpoch":
+					rerr = m.ReplaceOrAddEpoch(2, r2b)
+				case "RemoveEpochByConfigFilepath+AddEpoch":
+					if _, rerr = m.RemoveEpochByConfigFilepath(first.ConfigPath); rerr == nil {
+						rerr = m.AddEpoch(2, r2b)
+					}
+				case "RemoveEpoch+AddEpoch":
+					if rerr = m.RemoveEpoch(2); rerr == nil {
+						rerr = m.AddEpoch(2, r2b)
 					}
 				}
-			}
-			R.Outcome(fmt.Sprintf("reload:%s:wrong=%d", order, wrong))
-			if wrong > 0 {
-				R.Violation("C09|reload|stale-after-replace", fmt.Sprintf("epoch 2 reloaded (%s, same blocks, other offsets) after it had served requests: %d of %d requests addressed to it are then answered differently from an idle server with the new configuration; first: %s", order, wrong, len(want), firstWrong),
-					map[string]interface{}{"family": "reload-history", "order": order})
-			}
-			vkDrain(0)
-			for _, ep := range []*Epoch{i1, i2, r1, r2b} {
-				ep.Close()
+				if rerr != nil {
+					R.Internal("%s: %v", how, rerr)
+					return
+				}
+				got := answers(m)
+				R.Case(true, "")
+				wrong := 0
+				firstWrong := ""
+				for i := range want {
+					if got[i] != want[i] {
+						wrong++
+						if firstWrong == "" {
+							firstWrong = fmt.Sprintf("%s answered %.200s (idle server: %.120s)", bodies[i], got[i], want[i])
+						}
+					}
+				}
+				R.Outcome(fmt.Sprintf("reload:%s:%s:wrong=%d", how, order, wrong))
+				if wrong > 0 {
+					R.Violation("C09|reload|stale-after-"+how, fmt.Sprintf("epoch 2 reloaded by "+how+" (%s, same blocks, other offsets) after it had served requests: %d of %d requests addressed to it are then answered differently from an idle server with the new configuration; first: %s", order, wrong, len(want), firstWrong),
+						map[string]interface{}{"family": "reload-history", "order": order, "how": how})
+				}
+				vkDrain(0)
+				for _, ep := range []*Epoch{i1, i2, r1, r2, r2b} {
+					ep.Close()
+				}
 			}
 		}
 	}
